@@ -268,3 +268,43 @@ pub fn replay(a: &Args, rec: &serde_json::Value) -> Report {
     rep.violations.retain(|v| v.tag == tag && v.key == key);
     rep
 }
+
+
+/// C16 supplement: the real CLI in separate PROCESSES (fresh hash seeds each) must print identical
+/// bytes for the same input. A sample of seeds, labelled as such.
+pub fn c16cli(a: &Args) -> Report {
+    let mut rep = Report::new(&a.prop, "vgraph c16cli (real logos-cli, separate processes)", &a.tier_name);
+    let cli = PathBuf::from(a.file.clone().expect("--file <path to logos-cli>"));
+    let work = std::env::temp_dir().join(format!("vcli16-{}", std::process::id()));
+    let _ = std::fs::remove_dir_all(&work);
+    std::fs::create_dir_all(&work).unwrap();
+    let runs = if a.tier == vcore::enumerate::Tier::Thorough { 16 } else { 6 };
+    let defs: Vec<(String, vcore::spec::Spec)> = vcore::curated::curated().into_iter().filter(|(_, _, h)| !h).map(|(n, s, _)| (n.to_string(), s)).collect();
+    let results: Vec<Option<Violation>> = defs
+        .par_iter()
+        .enumerate()
+        .map(|(i, (name, spec))| {
+            let inp = work.join(format!("d{i}.rs"));
+            std::fs::write(&inp, spec.render("T", "Logos, Debug")).unwrap();
+            let first = run_cli(&cli, &[inp.to_str().unwrap()]);
+            for _ in 1..runs {
+                let o = run_cli(&cli, &[inp.to_str().unwrap()]);
+                if o.1 != first.1 || o.0 != first.0 {
+                    return Some(Violation { key: format!("PROCESS-DEPENDENT/{name}"), tag: "PROCESS-DEPENDENT".into(), case: format!("{name} {}", spec.short()), detail: "two runs of logos-cli on the same input print different output".into(), replay: json!({"kind": "c16cli", "tag": "PROCESS-DEPENDENT", "name": name}) });
+                }
+            }
+            None
+        })
+        .collect();
+    for r in results {
+        rep.count("programs", 1);
+        rep.count("supplement_process_seed_samples", runs as u64);
+        rep.count("traces_validated_against_impl", runs as u64);
+        if let Some(v) = r {
+            rep.violations.push(v);
+        }
+    }
+    rep.notes.push("separate-process runs of the real CLI are a SAMPLE of hash seeds (supplement to the exhaustive seam exploration)".into());
+    let _ = std::fs::remove_dir_all(&work);
+    rep
+}
